@@ -51,7 +51,16 @@ def run_shard(pid, tier, seed, shard, nshards, budget_s, out):
     # wall-clock watchdog: firing => the parent sees a dead shard => inconclusive
     faulthandler.dump_traceback_later(budget_s * 3 + 120, exit=True)
     ctx = Ctx(pid, tier, seed, shard, nshards, budget_s)
-    mod.run_shard(ctx)
+    try:
+        mod.run_shard(ctx)
+    except Exception as exc:
+        # The harness could not digest what the code under test produced (e.g. a token whose indices lie outside the
+        # stream).  On the unchanged tree this never happens; on a changed tree it is a symptom of the change, so it is
+        # reported as a violation with the traceback rather than as a dead shard.
+        import traceback
+
+        ctx.violation("harness-cannot-interpret-output:" + type(exc).__name__,
+                      {"case": dict(ctx.replay_info or {}), "traceback": "".join(traceback.format_exception(exc))[-1800:]})
     faulthandler.cancel_dump_traceback_later()
     ctx.dump(out)
 
